@@ -75,6 +75,40 @@ def extra_run(man, tier, seed):
             if len(o['cases']) < 3:
                 o['cases'].append({'line': line, 'impl': a, 'model': b})
             o['detail'] = f'{line[:160]} impl={a[:60]} model={b[:60]}'
+    # implementation against the documented domain itself (the theorems live on X, which has no subnormal range and no
+    # largest finite value): every finite value of the documented domain, down to the smallest subnormal and up to the
+    # largest finite number, must be ACCEPTED by the setter of that field and by `new`
+    EXT = {'pos': [5e-324, 1e-310, 2.2250738585072014e-308, 1e-300, 1e300, 1.7976931348623157e308],
+           'real': [5e-324, -5e-324, 1e-310, -1e-310, 1e300, -1e300, 1.7976931348623157e308, -1.7976931348623157e308, 0.0, -0.0]}
+    # fields whose documented domain is not the plain class of gen.DOM: r >= 1 (NegBinomial), a < b (Uniform)
+    REL = {('NegBinomial', 'r'), ('Uniform', 'a'), ('Uniform', 'b')}
+    alines, ameta = [], []
+    for lean, d in sorted(man['defs'].items()):
+        if not is_ctor_or_setter(d) or lean in skipped or d['owner'] not in gen.DOM or not isinstance(gen.DOM[d['owner']], dict):
+            continue
+        dom = gen.DOM[d['owner']]
+        fields = [f for f, t in structs[d['owner']]]
+        if d['name'].startswith('set_') and len(d['ptys']) == 1 and d['ptys'][0] == 'real':
+            fld = d['name'][4:]
+            for v in (EXT.get(dom.get(fld), []) if (d['owner'], fld) not in REL else []):
+                base = gen.struct_value(d['owner'], structs, rng)
+                alines.append(f'{lean} - {enc(base)} {enc(v)}')
+                ameta.append((lean, fld, v))
+        elif d['name'] == 'new' and all(t == 'real' for t in d['ptys']) and len(d['ptys']) == len(fields):
+            for i, fld in enumerate(fields):
+                for v in (EXT.get(dom.get(fld), []) if (d['owner'], fld) not in REL else []):
+                    base = list(gen.struct_value(d['owner'], structs, rng))
+                    if len(base) != len(fields):
+                        continue
+                    base[i] = v
+                    alines.append(f'{lean} - ' + ' '.join(enc(x) for x in base))
+                    ameta.append((lean, fld, v))
+    aimpl, _ = run_pair(alines, want_model=False) if alines else ([], None)
+    for line, (lean, fld, v), a in zip(alines, ameta, aimpl):
+        if a.startswith('E:') or a in ('PANIC', 'HANG'):
+            failures.append({'site': lean, 'case': line, 'impl': a, 'expected': f'accepted: {fld} = {v!r} is in the documented domain',
+                             'observed': 'rejected_valid' if a.startswith('E:') else a.lower(), 'detail': f'{fld}={v!r}', 'field': fld, 'value': v})
     return {'obligations': list(obligations.values()), 'failures': failures,
-            'stats': {'evaluations': len(lines), 'distinct_nontrivial': len(set(lines)), 'constructors_and_setters': len(obligations)},
+            'stats': {'evaluations': len(lines) + len(alines), 'distinct_nontrivial': len(set(lines)) + len(set(alines)),
+                      'constructors_and_setters': len(obligations), 'valid_extremes': len(alines)},
             'samples': lines[:3]}
